@@ -221,6 +221,9 @@ func (n *Namespace) add(c *serverConn, auth json.RawMessage) (*serverSocket, err
 
 	err = n.runMiddlewares(socket, handshake)
 	if err != nil {
+		// A middleware might have joined the socket to rooms before the socket was rejected
+		// (or the rooms of a recovered session were joined). Nothing of the socket should remain.
+		socket.leaveAll()
 		return nil, err
 	}
 
